@@ -21,3 +21,24 @@ fn c07_chunk_contract() {
     kani::cover!(c == 0, "COVER:zero");
     kani::cover!(true, "COVER:reach");
 }
+
+/// `object_store::GetRange::as_range` (dependency, executed by CBMC rather than
+/// assumed): whatever range kind the caller supplied, an accepted range satisfies
+/// `start <= end <= size` — with the `range.start == range.end` branch that
+/// precedes slice S1 in get_opts this is S1's precondition `start < end <= size`.
+#[kani::proof]
+#[kani::unwind(5)]
+fn c07_as_range_within_object() {
+    let size: u64 = kani::any();
+    let (a, b): (u64, u64) = (kani::any(), kani::any());
+    let rs = [GetRange::Bounded(a..b), GetRange::Offset(a), GetRange::Suffix(a)];
+    let mut k = 0;
+    while k < 3 {
+        if let Ok(r) = rs[k].as_range(size) {
+            assert!(r.start <= r.end && r.end <= size, "OBL:C07.chunk.as_range_within_object");
+            kani::cover!(r.start < r.end, "COVER:nonempty");
+        }
+        k += 1;
+    }
+    kani::cover!(true, "COVER:reach");
+}
